@@ -26,7 +26,7 @@ def site_lines():
 
 
 SCENARIOS = ['main-edit-with-dir-override', 'dir-edit', 'permissive-default-rule', 'deprecated-defaults',
-             'dir-edit-no-overwrite']
+             'dir-edit-no-overwrite', 'deprecated-main-emptied']
 
 
 def build(scn, root):
@@ -57,6 +57,15 @@ def build(scn, root):
 
         def change():
             fs.write('policy.d', 'o.yaml', {'p': 'role:dir_new'}, 'json')
+    elif scn == 'deprecated-main-emptied':
+        # the operator's override of a deprecated name (and the rule it refers to) goes away: the file is left empty
+        defaults = [('reg:a', 'role:new_a', ('old:a', 'role:old_a'), None),
+                    ('reg:b', 'role:new_b', ('reg:b', 'role:old_b'), None)]
+        kw['enforce_new_defaults'] = False
+        fs.write_main({'old:a': 'rule:q', 'q': 'role:main_q', 'p': 'role:main_old'}, 'json')
+
+        def change():
+            fs.write_main({}, 'json')
     elif scn == 'permissive-default-rule':
         fs.write_main({'default': '@', 'p': 'role:main_old'}, 'json')
 
@@ -80,6 +89,7 @@ def build(scn, root):
     def apply_change():
         change()
         fs.sync()
+    e.fresh_like = lambda: make_enforcer(root, defaults, **kw)
     return fs, e, apply_change, probes
 
 
@@ -147,11 +157,75 @@ def one_switch(scn, root, k, pkg, sites):
     return res, phase, s.count, after
 
 
+REF_OLD = {'p': 'rule:h', 'h': 'role:o', 'q': 'role:main_q'}
+REF_NEW = {'p': 'role:n', 'h': 'role:m', 'q': 'role:main_q'}
+
+
+def decider_switch(root, k, pkg):
+    """the DECIDING thread is paused before its k-th traced line (inside its enforce call, after its own load step
+    has found nothing new), a complete reload of edited files happens, the decider resumes.
+    -> (decision, phase, total lines); phase = whether rule evaluation had begun when it was paused"""
+    shutil.rmtree(root, ignore_errors=True)
+    os.makedirs(root)
+    fs = FsSim(root)
+    fs.mkdir('policy.d')
+    fs.write_main(REF_OLD, 'json')
+    fs.sync()
+    e = make_enforcer(root, [('reg:a', 'role:dflt_a', None, None)])
+    e.load_rules()
+    import linecache
+    st = {'count': 0, 'where': None, 'in_eval': False, 'phase': None}
+    paused, resume = threading.Event(), threading.Event()
+
+    def tracer(frame, event, arg):
+        if not frame.f_code.co_filename.startswith(pkg):
+            return None
+
+        def local(frame, event, arg):
+            if event == 'line':
+                st['count'] += 1
+                if st['count'] == k:
+                    st['where'] = '%s:%s' % (frame.f_code.co_name, frame.f_lineno)
+                    # has the enforced rule's own definition been fetched from the store yet?
+                    st['phase'] = 'after-lookup' if st['in_eval'] else 'before-lookup'
+                    paused.set()
+                    resume.wait()
+                # (the pause is BEFORE the line runs: a line is counted as done only from the next event on)
+                if os.path.basename(frame.f_code.co_filename) == '_checks.py' or (
+                        frame.f_code.co_name == 'enforce' and
+                        '[rule]' in linecache.getline(frame.f_code.co_filename, frame.f_lineno)):
+                    st['in_eval'] = True
+            return local
+        return local
+    out = {}
+
+    def b():
+        sys.settrace(tracer)
+        try:
+            out['r'] = bool(e.enforce('p', {}, {'roles': ['m']}))
+        except Exception as ex:   # noqa
+            out['r'] = 'EXC ' + type(ex).__name__
+        finally:
+            sys.settrace(None)
+            paused.set()
+    tb = threading.Thread(target=b)
+    tb.start()
+    paused.wait()
+    if st['where']:
+        fs.write_main(REF_NEW, 'json')
+        fs.sync()
+        e.load_rules()
+    resume.set()
+    tb.join()
+    return out['r'], st['phase'], st['count']
+
+
 def settled(scn, root):
     fs, e, change, probes = build(scn, root)
     old = probe(e, probes)
     change()
-    new = probe(e, probes)
+    # the complete new policy is what a newly started enforcer decides on the changed files
+    new = probe(e.fresh_like(), probes)
     return old, new
 
 
@@ -209,12 +283,27 @@ def run(run, binfo):
                                'input': {'scenario': scn, 'k': k, 'phase': phase},
                                'expected': {'old': old, 'new': new}, 'observed': res})
             run.nontrivial.add((scn, k))
+    # ---- the deciding thread is the one that is preempted (after its own load step), a whole reload goes by
+    _, _, total = decider_switch(root, 10 ** 9, pkg)
+    run.count('lines_in_decision', total)
+    for k in range(1, total + 1):
+        r, phase, _ = decider_switch(root, k, pkg)
+        run.evaluations += 1
+        # roles ['m']: the old policy (p -> h -> role:o) denies, the new one (p = role:n) denies
+        if r is not False:
+            run.violation('mixed-decider:ref-edit:%s' % phase,
+                          'the deciding thread was preempted at its line-point %d (%s) while the main file was edited '
+                          '(p and the rule it refers to both changed) and reloaded: it decided %r, the old and the new '
+                          'policy both deny' % (k, phase, r),
+                          {'kind': 'failing-input', 'suite': 'spec-c20-decider',
+                           'input': {'scenario': 'ref-edit', 'k': k, 'phase': phase}, 'expected': False, 'observed': r})
+        run.nontrivial.add(('decider', k))
     run.extra['mixed_phases'] = {('%s | %s' % k): len(v) for k, v in sorted(mixed.items())}
     run.sample({'scenario': SCENARIOS[0], 'k': 100})
-    run.rule = ('four reload scenarios (%s); the reloading thread is preempted at every%s source-line boundary inside oslo_policy '
+    run.rule = ('reload scenarios (%s); the reloading thread is preempted at every%s source-line boundary inside oslo_policy '
                 '(sys.settrace), the other thread then takes 56 decisions (4 names x 14 roles, each through its own implicit '
                 'load_rules) and the reloader resumes; decisions compared with the settled old and new policies; a mixed decision '
-                'is keyed by (scenario, last shared-state write site executed by the reloader). non-trivial = preemption points'
+                'is keyed by (scenario, last shared-state write site executed by the reloader); and the deciding thread preempted at every line of its own enforce call while a whole reload goes by (keyed by whether the definition of the enforced rule had already been fetched). non-trivial = preemption points'
                 % (', '.join(SCENARIOS), '' if tier == 'thorough' else ' third'))
     shutil.rmtree(root, ignore_errors=True)
 
@@ -224,6 +313,11 @@ def replay(run, rep):
     inp = rep['input']
     pkg = os.path.dirname(oslo_policy.__file__)
     root = fresh_root('c20replay')
+    if rep.get('suite') == 'spec-c20-decider':
+        r, phase, _ = decider_switch(root, inp['k'], pkg)
+        shutil.rmtree(root, ignore_errors=True)
+        print('phase', phase, 'decision', r)
+        return r is False
     old, new = settled(inp['scenario'], root)
     res, phase, _, _ = one_switch(inp['scenario'], root, inp['k'], pkg, site_lines())
     shutil.rmtree(root, ignore_errors=True)
